@@ -387,12 +387,18 @@ def cases(shard, nshards, seed, tier):
         for t in range(2 if tier == "quick" else 10):
             if mine():
                 yield {"family": "own-annotation-thinned", "file": fn, "gaps": True, "ops": [{"op": "thin-res", "seed": f"{seed}:{fn}:{t}", "frac": 0.15}]}
+            # numbering jumps whose flanking residues lack the O3' / P atoms (unmodelled 5' phosphate)
+            if mine():
+                yield {"family": "own-annotation-gaps-without-linker-atoms", "file": fn, "gaps": True,
+                       "ops": [{"op": "thin-res", "seed": f"{seed}:{fn}:g{t}", "frac": 0.15}, {"op": "thin-atoms", "seed": f"{seed}:{fn}:p{t}", "frac": 0.5, "names": ["P", "O3'", "OP1", "OP2"]}]}
     n = 600 if tier == "quick" else 15000
     for i in range(n):
         if mine():
             rng = random.Random(f"{seed}:C06:{i}")
             fn = STRUCTS[i % len(STRUCTS)]
             ops = [] if rng.random() < 0.7 else [{"op": "thin-res", "seed": f"{seed}:C06:t{i}", "frac": rng.uniform(0.05, 0.3)}]
+            if ops and rng.random() < 0.4:
+                ops.append({"op": "thin-atoms", "seed": f"{seed}:C06:p{i}", "frac": 0.4, "names": ["P", "O3'"]})
             yield {"family": "random-list", "file": fn, "gaps": rng.random() < 0.5, "ops": ops, "i": i}
 
 
